@@ -3,56 +3,11 @@ package c01
 import (
 	"bytes"
 	stdjson "encoding/json"
-	"math"
-	"sort"
 	"testing"
 
 	"verif/harness/evid"
 	"verif/harness/jgen"
 )
-
-// recipeOfAny describes a generic value (as produced by encoding/json's decoder) as a jgen recipe of static type any.
-func recipeOfAny(v any) jgen.Recipe {
-	dyn := func(k string, r jgen.Recipe) jgen.Recipe {
-		return jgen.Recipe{Dyn: &jgen.TypeDesc{K: k}, Elems: []jgen.Recipe{r}}
-	}
-	switch x := v.(type) {
-	case nil:
-		return jgen.Recipe{Nil: true}
-	case bool:
-		if x {
-			return dyn("bool", jgen.Recipe{I: 1})
-		}
-		return dyn("bool", jgen.Recipe{})
-	case float64:
-		return dyn("float64", jgen.Recipe{F: math.Float64bits(x)})
-	case stdjson.Number:
-		return dyn("number", jgen.Recipe{S: []byte(x)})
-	case string:
-		return dyn("string", jgen.Recipe{S: []byte(x)})
-	case []any:
-		anyT := jgen.TypeDesc{K: "any"}
-		r := jgen.Recipe{Elems: []jgen.Recipe{}}
-		for _, e := range x {
-			r.Elems = append(r.Elems, recipeOfAny(e))
-		}
-		return jgen.Recipe{Dyn: &jgen.TypeDesc{K: "slice", Elem: &anyT}, Elems: []jgen.Recipe{r}}
-	case map[string]any:
-		anyT, strT := jgen.TypeDesc{K: "any"}, jgen.TypeDesc{K: "string"}
-		keys := make([]string, 0, len(x))
-		for k := range x {
-			keys = append(keys, k)
-		}
-		sort.Strings(keys)
-		r := jgen.Recipe{Keys: []jgen.Recipe{}, Elems: []jgen.Recipe{}}
-		for _, k := range keys {
-			r.Keys = append(r.Keys, jgen.Recipe{S: []byte(k)})
-			r.Elems = append(r.Elems, recipeOfAny(x[k]))
-		}
-		return jgen.Recipe{Dyn: &jgen.TypeDesc{K: "map", Key: &strT, Elem: &anyT}, Elems: []jgen.Recipe{r}}
-	}
-	return jgen.Recipe{Nil: true}
-}
 
 // FuzzMarshalAnyDiff: coverage-guided search over generic values (whatever encoding/json decodes from the input,
 // with and without UseNumber) and encoder settings taken from the first input byte; the oracle is the check's own
@@ -90,7 +45,7 @@ func FuzzMarshalAnyDiff(f *testing.F) {
 		default:
 			s.API, s.N, s.Indent = "Encoder", 1, "  "
 		}
-		c := Case{Type: jgen.TypeDesc{K: "any"}, Value: recipeOfAny(v), Setting: s}
+		c := Case{Type: jgen.TypeDesc{K: "any"}, Value: jgen.RecipeOfAny(v), Setting: s}
 		if fl := checkCase(c); fl != nil {
 			typ := c.Type.Type()
 			if cls := knownClass(c, typ, fl); cls != "" && evid.KnownActive(cls) {
